@@ -69,15 +69,6 @@ func newDataReader(c *Conn) *dataReader {
 }
 
 func (r *dataReader) Read(b []byte) (n int, err error) {
-	if r.limited {
-		if r.n <= 0 {
-			return 0, ErrDataTooLarge
-		}
-		if int64(len(b)) > r.n {
-			b = b[0:r.n]
-		}
-	}
-
 	// Code below is taken from net/textproto with only one modification to
 	// not rewrite CRLF -> LF.
 
@@ -91,6 +82,33 @@ func (r *dataReader) Read(b []byte) (n int, err error) {
 		stateData             // reading data in middle of line
 		stateEOF              // reached .\r\n end marker line
 	)
+	if r.limited {
+		if r.n <= 0 && r.state != stateEOF {
+			// The budget is used up: the message fits only if nothing but
+			// the rest of the end marker follows.
+			if r.state > stateDotCR {
+				return 0, ErrDataTooLarge
+			}
+			rest := ".\r\n"[r.state:]
+			for i := 1; i <= len(rest); i++ {
+				p, err := r.r.Peek(i)
+				if err != nil {
+					if err == io.EOF {
+						err = io.ErrUnexpectedEOF
+					}
+					return 0, err
+				}
+				if p[i-1] != rest[i-1] {
+					return 0, ErrDataTooLarge
+				}
+			}
+			r.r.Discard(len(rest))
+			r.state = stateEOF
+		}
+		if int64(len(b)) > r.n {
+			b = b[0:r.n]
+		}
+	}
 	for n < len(b) && r.state != stateEOF {
 		var c byte
 		c, err = r.r.ReadByte()
